@@ -14,7 +14,34 @@ func init() { register("C06", checkC06) }
 // read from field (e.g. Agent.localCandidates) whose body returns when an
 // element Equal()s the candidate cand.
 func (p *Prog) dedupLoopDone(f *Func, facts FactSet, field string, cand types.Object) bool {
+	fromFieldExpr := func(e ast.Expr) bool {
+		if p.MentionsField(e, field) {
+			return true
+		}
+		if id, ok := unparen(e).(*ast.Ident); ok {
+			for _, d := range p.DefsOf(f, p.ObjOf(id)) {
+				if d.Rhs != nil && p.MentionsField(d.Rhs, field) {
+					return true
+				}
+			}
+		}
+		return false
+	}
 	return facts.Has(func(ft Fact) bool {
+		// the same search written with the standard helper: !slices.ContainsFunc(set, func(x) bool { return x.Equal(cand) })
+		if ft.Op == "truth" && !ft.Val {
+			if c, _, ok := p.ResolveCall(f, ft.X); ok && p.CalleeName(c) == "slices.ContainsFunc" && len(c.Args) == 2 && fromFieldExpr(c.Args[0]) {
+				if lit, ok := unparen(c.Args[1]).(*ast.FuncLit); ok && len(lit.Body.List) == 1 {
+					if rs, ok := lit.Body.List[0].(*ast.ReturnStmt); ok && len(rs.Results) == 1 {
+						if ec, ok := unparen(rs.Results[0]).(*ast.CallExpr); ok && p.CalleeName(ec) == "ice.Candidate.Equal" && len(ec.Args) == 1 {
+							if id, ok := unparen(ec.Args[0]).(*ast.Ident); ok && p.ObjOf(id) == cand {
+								return true
+							}
+						}
+					}
+				}
+			}
+		}
 		if ft.Op != "range" || ft.Val {
 			return false
 		}
